@@ -155,7 +155,13 @@ func cmdCrash(args []string) {
 	var jobs []job
 	for wl := 0; wl < c.n; wl++ {
 		r := root.Fork()
-		g := &repoGen{r: r, profile: "lifecycle", now: T0, maxLive: 5, avoid: map[string]bool{}}
+		// every other workload also runs the recovery operations themselves (RevertDispatched / CancelDispatched /
+		// DeleteEnded) inside the child, so that a kill can land INSIDE one of them: it must be all-or-nothing too
+		prof := "lifecycle"
+		if wl%2 == 1 {
+			prof = "recover"
+		}
+		g := &repoGen{r: r, profile: prof, now: T0, maxLive: 5, avoid: map[string]bool{}}
 		// the workload: mutations only (reads acknowledge nothing durable)
 		var script []string
 		var issued []string
